@@ -115,7 +115,7 @@ fn annex_sign_session(w: &mut World) {
     w.exec(json!({"op":"sm2.derive_pk","impl":"lib","d":"annex.d","pk":"annex.pk","comp":false}));
     w.exec(set("annex.id", b"1234567812345678"));
     w.exec(set("annex.msg", b"message digest"));
-    w.exec(json!({"op":"sm2.sign","impl":"lib","d":"annex.d","id":"annex.id","msg":"annex.msg","sig":"annex.sig","rng":{"c":[k],"f":1}}));
+    w.exec(json!({"op":"sm2.sign","impl":"lib","d":"annex.d","id":"annex.id","msg":"annex.msg","sig":"annex.sig","rng":{"c":[k, k, k, k],"f":1}}));
     w.exec(json!({"op":"assert.eq","a":"annex.sig","hex":"f5a03b0648d2c4630eeac513e1bb81a15944da3827d5b74143ac7eaceee720b3b1b6aa29df212fd8763182bc0d421ca1bb9038fd1f7f42d4840b69c485bbc1aa","property":"C03","oracle":"annex-example","entry":"sm2.sign","class":"annex-example","what":"GM/T 0003.5 Annex A signature"}));
     w.exec(json!({"op":"sm2.verify","impl":"lib","pk":"annex.pk","id":"annex.id","msg":"annex.msg","sig":"annex.sig"}));
 }
